@@ -236,6 +236,8 @@ func (m *Monitor) EndStep() {
 				m.add("M5.voted-unknown-block", "n%d signed a %s at %d/%d for a block id no proposer ever produced: %x", i, s.Kind, s.Height, s.Round, s.BlockID.Hash.Bytes()[:6])
 			} else if !c.Valid {
 				m.add("M5.voted-invalid-block:"+c.Invalid, "n%d signed a %s at %d/%d for %s, which violates validity rule %q (%s)", i, s.Kind, s.Height, s.Round, c.Name, c.Invalid, c.Desc)
+			} else if c.Height != s.Height {
+				m.add("M5.voted-invalid-block:stale-height", "n%d signed a %s at %d/%d for %s, a block built for height %d (%s)", i, s.Kind, s.Height, s.Round, c.Name, c.Height, c.Desc)
 			}
 		}
 		nm.pending = nil
@@ -261,6 +263,8 @@ func (m *Monitor) EndStep() {
 			}
 			if c := m.s.CandByID(id); c != nil && !c.Valid {
 				m.add("M5.committed-invalid-block:"+c.Invalid, "n%d committed %s at height %d, which violates validity rule %q", i, c.Name, h, c.Invalid)
+			} else if c != nil && c.Height != h {
+				m.add("M5.committed-invalid-block:stale-height", "n%d committed %s at height %d, a block built for height %d", i, c.Name, h, c.Height)
 			}
 			// independent validity of the extension: height, parent id, median time
 			if b.Height() != h {
